@@ -239,8 +239,8 @@ public:
             case 1: choice = r[rnd() % r.size()]; break;
             case 2: {
                 for (long c : pctChange) if (c == step && me) me->prio = (int)(rnd() % 100); // lower the running thread's priority
-                // fairness for polling loops: a thread that has been chosen 64 times in a row drops below everybody else
-                if (me && meIn && consecutive >= 64) { int lo = me->prio; for (auto& t : th) lo = std::min(lo, t->prio); me->prio = lo - 1; }
+                // fairness for polling loops: a thread that has been chosen 6 times in a row drops below everybody else
+                if (me && meIn && consecutive >= 6) { int lo = me->prio; for (auto& t : th) lo = std::min(lo, t->prio); me->prio = lo - 1; }
                 int best = r[0];
                 for (int id : r) if (th[(size_t)id]->prio > th[(size_t)best]->prio) best = id;
                 choice = best; break;
